@@ -32,6 +32,10 @@ pub enum Op {
     BatchPut(Vec<(usize, usize)>),
     /// validated put; `wrong` = pass a content key that does not match the value
     PutValidated { k: usize, len: usize, wrong: bool },
+    /// put_with_validation_and_ttl with a matching content key
+    PutValidatedTtl { k: usize, len: usize, ttl_ms: u64 },
+    /// get_with_validation asking for a content key the stored value does NOT hash to
+    GetValidatedWrongKey(usize),
     GetValidated(usize),
     Contains(usize),
     Size,
@@ -62,13 +66,18 @@ struct LE {
     put_hi: u64,
     ttl: u64,
     maybe_gone: bool,
+    /// a promoted copy may keep the source's expiry or get a fresh TTL from the target layer: it is
+    /// certainly live until the earlier of the two (`live_until`) and certainly expired after the later
+    /// (`dead_after`)
+    live_until: Option<u64>,
+    dead_after: Option<u64>,
 }
 impl LE {
     fn surely_expired(&self, t_lo: u64) -> bool {
-        t_lo >= self.put_hi.saturating_add(self.ttl)
+        t_lo >= self.dead_after.unwrap_or(self.put_hi.saturating_add(self.ttl))
     }
     fn surely_live(&self, t_hi: u64) -> bool {
-        t_hi < self.put_lo.saturating_add(self.ttl)
+        t_hi < self.live_until.unwrap_or(self.put_lo.saturating_add(self.ttl))
     }
 }
 
@@ -104,7 +113,8 @@ impl Model {
     fn put_layer(&mut self, k: usize, layer: usize, value: Vec<u8>, ttl: Option<u64>, t_lo: u64, t_hi: u64, ctx: &mut Ctx) {
         if let Some(max) = self.mem_max[layer] {
             let cnt = self.keys.iter().filter(|km| km.held[layer].is_some()).count();
-            if cnt >= max {
+            // generous, as in C10: how close to its limit a layer starts evicting is tuning
+            if 2 * (cnt + 1) > max {
                 for (j, km) in self.keys.iter_mut().enumerate() {
                     if j != k {
                         if let Some(e) = km.held[layer].as_mut() {
@@ -116,7 +126,7 @@ impl Model {
             }
         }
         let ttl = ttl.unwrap_or(self.default_ttl[layer]);
-        self.keys[k].held[layer] = Some(LE { value, put_lo: t_lo, put_hi: t_hi, ttl, maybe_gone: false });
+        self.keys[k].held[layer] = Some(LE { value, put_lo: t_lo, put_hi: t_hi, ttl, maybe_gone: false, live_until: None, dead_after: None });
         self.keys[k].taint[layer] = false;
         self.keys[k].deleted[layer] = false;
     }
@@ -173,6 +183,8 @@ fn build(case: &Case, root: &std::path::Path) -> Result<(MultiLayerCacheImpl<Sim
             let max: usize = n.parse().unwrap_or(1).max(1);
             let mut mc = MemoryCacheConfig::new().with_max_entries(max);
             mc.max_memory_bytes = None;
+            // the model's TTLs are SET here, not read off the shipped defaults
+            mc.default_ttl = Some(Duration::from_secs(3600));
             cfg = cfg.add_memory_layer(mc);
             mem_max.push(Some(max));
             default_ttl.push(H);
@@ -181,6 +193,9 @@ fn build(case: &Case, root: &std::path::Path) -> Result<(MultiLayerCacheImpl<Sim
             let d = root.join(format!("layer{i}"));
             let mut dc = DiskCacheConfig::new(d.clone()).with_subdirectories(false, 1);
             dc.sync_interval = Duration::from_secs(1000 * 24 * 3600);
+            dc.default_ttl = Some(Duration::from_secs(24 * 3600));
+            dc.cleanup_interval = Duration::from_secs(300);
+            dc.max_files = 100_000;
             cfg = cfg.add_disk_layer(dc);
             mem_max.push(None);
             default_ttl.push(24 * H);
@@ -241,7 +256,7 @@ impl Scenario for Layers {
         }
     }
     fn watchdog_ms(&self) -> u64 {
-        4_000
+        8_000
     }
 
     fn generate(&self, rng: &mut Rng, _tier: Tier) -> Case {
@@ -293,7 +308,11 @@ impl Scenario for Layers {
                 7 => Op::Clear,
                 8 => Op::BatchGet((0..rng.range(1, 5)).map(|_| rng.usize_below(nkeys)).collect()),
                 9 => Op::BatchPut((0..rng.range(1, 5)).map(|_| (rng.usize_below(nkeys), *rng.pick(&[1usize, 9, 40]))).collect()),
-                10 => Op::PutValidated { k, len, wrong: rng.chance(15, 100) },
+                10 => match rng.below(10) {
+                    0..=1 => Op::PutValidatedTtl { k, len, ttl_ms: *rng.pick(&[50u64, 1000, 3_600_000]) },
+                    2..=3 => Op::GetValidatedWrongKey(k),
+                    _ => Op::PutValidated { k, len, wrong: rng.chance(15, 100) },
+                },
                 11 => Op::GetValidated(k),
                 12 => Op::Contains(k),
                 13 => Op::Size,
@@ -366,6 +385,31 @@ impl Scenario for Layers {
         }
         out
     }
+}
+
+/// The file a disk layer keeps for a key: `<dir>/<key>` today; if the layout ever changes, the file whose
+/// content equals what the model says the layer holds (so that faults do not silently become no-ops).
+fn backing_file(dir: &std::path::Path, name: &str, content: Option<&[u8]>, ctx: &mut Ctx) -> std::path::PathBuf {
+    let p = dir.join(name);
+    if p.is_file() {
+        return p;
+    }
+    if let Some(want) = content {
+        let mut stack = vec![dir.to_path_buf()];
+        while let Some(d) = stack.pop() {
+            for e in std::fs::read_dir(&d).into_iter().flatten().flatten() {
+                let q = e.path();
+                if q.is_dir() {
+                    stack.push(q);
+                } else if std::fs::read(&q).is_ok_and(|b| b == want) {
+                    ctx.count("fault_target_found_by_content");
+                    return q;
+                }
+            }
+        }
+        ctx.count("fault_target_not_found");
+    }
+    p
 }
 
 fn val(i: usize, k: usize, len: usize, sub: usize) -> Vec<u8> {
@@ -520,7 +564,14 @@ async fn run(case: &Case, ctx: &mut Ctx) -> Option<Violation> {
                         }
                     }
                     Err(e) => {
-                        viol!("C12.op.no_error", "op_error", ",op=get", format!("op #{i} get(k{k}) failed: {e}"));
+                        // surfacing a layer's I/O error once (a deleted or edited backing file) instead of swallowing it
+                        // is allowed; an error with no fault pending for the key is not
+                        if !(m.keys[k].tainted() || m.keys[k].deleted.iter().any(|d| *d)) {
+                            viol!("C12.op.no_error", "op_error", ",op=get", format!("op #{i} get(k{k}) failed: {e}"));
+                        }
+                        for d in m.keys[k].deleted.iter_mut() {
+                            *d = false;
+                        }
                     }
                 }
             }
@@ -590,7 +641,7 @@ async fn run(case: &Case, ctx: &mut Ctx) -> Option<Violation> {
                                     if !ok && older {
                                         ctx.count("older_copy_seen_in_layer");
                                         let (lo, hi) = (t_lo, t_hi);
-                                        m.keys[k].held[layer] = Some(LE { value: v.to_vec(), put_lo: lo, put_hi: hi, ttl: u64::MAX / 2, maybe_gone: true });
+                                        m.keys[k].held[layer] = Some(LE { value: v.to_vec(), put_lo: lo, put_hi: hi, ttl: u64::MAX / 2, maybe_gone: true, live_until: None, dead_after: None });
                                     } else if !ok {
                                         let gone = m.keys[k].latest.is_none();
                                         viol!("C12.layer.read", if gone { "answer_after_remove" } else { "foreign_value_served" }, ",via=get_from_layer", format!("op #{i} get_from_layer(k{k}, {layer}) returned {} bytes although the model says the layer holds {}", v.len(), held.map(|e| format!("{} other bytes", e.value.len())).unwrap_or_else(|| "nothing (removed, cleared or never put there)".into())));
@@ -622,7 +673,12 @@ async fn run(case: &Case, ctx: &mut Ctx) -> Option<Violation> {
                     Ok(true) => {
                         if let Some(e) = m.keys[k].held[from].clone() {
                             let src_tainted = m.keys[k].taint[from];
+                            let (src_live, src_dead) = (e.live_until.unwrap_or(e.put_lo.saturating_add(e.ttl)), e.dead_after.unwrap_or(e.put_hi.saturating_add(e.ttl)));
                             m.put_layer(k, to, e.value, None, t_lo, t_hi, ctx);
+                            if let Some(t) = m.keys[k].held[to].as_mut() {
+                                t.live_until = Some(src_live.min(t.put_lo.saturating_add(t.ttl)));
+                                t.dead_after = Some(src_dead.max(t.put_hi.saturating_add(t.ttl)));
+                            }
                             // promoting an edited file copies the edited bytes
                             m.keys[k].taint[to] = src_tainted;
                             if let Some(e) = m.keys[k].held[from].as_mut() {
@@ -667,6 +723,11 @@ async fn run(case: &Case, ctx: &mut Ctx) -> Option<Violation> {
                 }
                 m.drop_key(k);
                 ctx.mutations += 1;
+                for l in 0..nl {
+                    if let Ok(Some(b)) = ml.get_from_layer(&keys[k], l).await {
+                        viol!("C12.remove.all_layers", "answer_after_remove", ",via=probe_after_remove", format!("op #{i}: right after remove(k{k}) layer {l} still answers for the key with {} bytes", b.len()));
+                    }
+                }
             }
             Op::Clear => {
                 let r = call!(i, "clear", ml.clear());
@@ -678,6 +739,13 @@ async fn run(case: &Case, ctx: &mut Ctx) -> Option<Violation> {
                     m.drop_key(k);
                 }
                 ctx.mutations += 1;
+                for k in 0..nk {
+                    for l in 0..nl {
+                        if let Ok(Some(b)) = ml.get_from_layer(&keys[k], l).await {
+                            viol!("C12.remove.all_layers", "answer_after_remove", ",via=probe_after_clear", format!("op #{i}: right after clear() layer {l} still answers for k{k} with {} bytes", b.len()));
+                        }
+                    }
+                }
             }
             Op::PutValidated { k, len, wrong } => {
                 let k = *k % nk;
@@ -699,6 +767,44 @@ async fn run(case: &Case, ctx: &mut Ctx) -> Option<Violation> {
                         if !(*wrong && case.hooks) {
                             viol!("C12.op.no_error", "op_error", ",op=put_with_validation", format!("op #{i} put_with_validation(k{k}) with a matching content key failed: {e}"));
                         }
+                    }
+                }
+            }
+            Op::PutValidatedTtl { k, len, ttl_ms } => {
+                let k = *k % nk;
+                let v = val(i, k, *len, 8);
+                let ck = ContentKey::from_data(&v);
+                let r = call!(i, "put_with_validation_and_ttl", ml.put_with_validation_and_ttl(keys[k].clone(), ck, Bytes::from(v.clone()), Duration::from_millis(*ttl_ms)));
+                let t_hi = seams::virt_elapsed_ns();
+                ctx.event(|| json!({"k":"op","op":"put_with_validation_and_ttl","key":k,"len":len,"ttl_ms":ttl_ms,"ok":r.is_ok()}));
+                match r {
+                    Ok(_) => {
+                        m.api_put(k, 0, v.clone(), Some(*ttl_ms * MS), t_lo, t_hi, ctx);
+                        m.keys[k].ck = Some(ck);
+                        ctx.mutations += 1;
+                    }
+                    Err(e) => {
+                        viol!("C12.op.no_error", "op_error", ",op=put_with_validation_and_ttl", format!("op #{i} put_with_validation_and_ttl(k{k}) with a matching content key failed: {e}"));
+                    }
+                }
+            }
+            Op::GetValidatedWrongKey(k) => {
+                let k = *k % nk;
+                let ck = ContentKey::from_data(format!("not what is stored under k{k}").as_bytes());
+                let r = call!(i, "get_with_validation", ml.get_with_validation(&keys[k], Some(ck)));
+                let r = r.map(|o| o.map(cascette_cache::validation::NgdpBytes::into_bytes));
+                ctx.event(|| json!({"k":"op","op":"get_with_validation(wrong key)","key":k,"ret":match &r {Ok(Some(v)) => json!({"len":v.len()}), Ok(None) => json!(null), Err(e) => json!({"err":e.to_string()})}}));
+                if let (true, Ok(Some(v))) = (case.hooks, &r) {
+                    if ContentKey::from_data(v) != ck {
+                        viol!("C12.validation.get", "served_bytes_fail_md5", ",wrong_key_requested", format!("op #{i} get_with_validation(k{k}) was asked for a content key the stored value does not hash to and returned the {} stored bytes anyway", v.len()));
+                    }
+                }
+                ctx.count("validated_reads_with_foreign_key");
+                // whether the (intact) entry is dropped as "corrupt" or kept is not judged: every layer may
+                // have given it up
+                if case.hooks {
+                    for h in m.keys[k].held.iter_mut().flatten() {
+                        h.maybe_gone = true;
                     }
                 }
             }
@@ -770,7 +876,7 @@ async fn run(case: &Case, ctx: &mut Ctx) -> Option<Violation> {
                 let k = *k % nk;
                 let layer = *layer % nl;
                 if let Some(d) = &dirs[layer] {
-                    let p = d.join(keys[k].as_cache_key());
+                    let p = backing_file(d, &keys[k].as_cache_key(), m.keys[k].held[layer].as_ref().map(|e| e.value.as_slice()), ctx);
                     if let Ok(b) = std::fs::read(&p) {
                         let mut nb = b.clone();
                         match how % 4 {
@@ -793,7 +899,7 @@ async fn run(case: &Case, ctx: &mut Ctx) -> Option<Violation> {
                 let k = *k % nk;
                 let layer = *layer % nl;
                 if let Some(d) = &dirs[layer] {
-                    let p = d.join(keys[k].as_cache_key());
+                    let p = backing_file(d, &keys[k].as_cache_key(), m.keys[k].held[layer].as_ref().map(|e| e.value.as_slice()), ctx);
                     if std::fs::remove_file(&p).is_ok() {
                         if let Some(e) = m.keys[k].held[layer].as_mut() {
                             e.maybe_gone = true;
